@@ -8,12 +8,16 @@ import GLua.Spec.CondSpec
 namespace GLua.Lowering
 open GLua.Compile GLua.MiniVM
 
+variable [NumStruct]
+
 /-! ### lists -/
 
+omit [NumStruct] in
 theorem prefix_get {α} {l1 l2 : List α} (h : l1 <+: l2) {i : Nat} (hi : i < l1.length) : l2[i]? = l1[i]? := by
   obtain ⟨t, rfl⟩ := h
   simp [List.getElem?_append_left hi]
 
+omit [NumStruct] in
 theorem prefix_get_some {α} {l1 l2 : List α} (h : l1 <+: l2) {i : Nat} {x : α} (hx : l1[i]? = some x) : l2[i]? = some x := by
   have hi : i < l1.length := by
     rcases Nat.lt_or_ge i l1.length with h' | h'
@@ -28,6 +32,7 @@ def resInstr (lp : List (Nat × Int)) (pc : Nat) : Instr → Instr
   | .jmp sbx => .jmp (lookupLabel lp sbx.toNat - (pc : Int))
   | i => i
 
+omit [NumStruct] in
 theorem resolve_go_get (lp : List (Nat × Int)) (code : List Instr) (pc i : Nat) :
     (resolveLabels.go lp pc code)[i]? = (code[i]?).map (resInstr lp (pc + i)) := by
   induction code generalizing pc i with
@@ -39,6 +44,7 @@ theorem resolve_go_get (lp : List (Nat × Int)) (code : List Instr) (pc i : Nat)
       have := ih (pc + 1) j
       cases x <;> simp [resolveLabels.go, this] <;> congr 2 <;> omega
 
+omit [NumStruct] in
 theorem resolve_get (lp : List (Nat × Int)) (code : List Instr) (i : Nat) :
     (resolveLabels code lp)[i]? = (code[i]?).map (resInstr lp i) := by
   simpa [resolveLabels] using resolve_go_get lp code 0 i
@@ -84,8 +90,11 @@ theorem step_jmp {F : CState} {p L : Nat} {ρ g : Nat → V} (h : F.code[p]? = s
 
 /-! ### setReg / fillNil -/
 
+omit [NumStruct] in
 @[simp] theorem setReg_same (ρ : Nat → V) (a : Nat) (v : V) : setReg ρ a v a = v := by simp [setReg]
+omit [NumStruct] in
 theorem setReg_other (ρ : Nat → V) {a r : Nat} (v : V) (h : r ≠ a) : setReg ρ a v r = ρ r := by simp [setReg, h]
+omit [NumStruct] in
 theorem fillNil_one (ρ : Nat → V) (a : Nat) (n : V) : fillNil ρ a a n = setReg ρ a n := by
   funext i; simp only [fillNil, setReg]
   by_cases h : i = a
@@ -113,8 +122,11 @@ theorem constIndex_spec (st : CState) (k : Konst) :
     (constIndex st k).1.code = st.code ∧ (constIndex st k).1.labelId = st.labelId ∧
     (constIndex st k).1.labelPc = st.labelPc ∧ (constIndex st k).1.regTop = st.regTop := by
   unfold constIndex
-  cases h : findIdx st.consts k with
-  | some i => simp [findIdx_some h]
-  | none => simp
+  by_cases hn : k.isNaN = true
+  · simp [hn]
+  · simp only [hn, Bool.false_eq_true, if_false]
+    cases h : findIdx st.consts k with
+    | some i => simp [findIdx_some h]
+    | none => simp
 
 end GLua.Lowering
